@@ -464,7 +464,9 @@ def wire_target(binding, info, destination):
         if binding in (S, O):
             return info.get("url") == destination
         if binding in (A, U):
-            return info.get("url", "").startswith(destination + "?")
+            # pack.add_query (fix fc5e66e9): joined to an existing query by '&' (pool destinations never end in '?', '&', '#')
+            glue = "&" if "?" in destination else "?"
+            return info.get("url", "").startswith(destination + glue)
     except Exception:
         return False
     return False
